@@ -17,7 +17,7 @@ pub fn property() -> Property {
     Property {
         id: "C17",
         level: "exploration",
-        rule: "Real loopback listeners behind a name mapped with the resolver hook H2. Per address one of: ACCEPT (listener that answers a small HTTP response and counts connections/requests), REFUSE (socket bound but not listening), BLACK-HOLE (listen backlog 0 + parked connection: further SYNs are dropped; verified with a probe connect before each use). Address lists with 0..3 entries per family ([::1]:p_i and 127.0.0.1:p_i), both family orders in the resolver output, EVERY assignment of {accept, refuse, black-hole} (<= 3^6 per shape; 3 198 assignments in thorough, a stride in quick) x deadline class {none, already expired, shorter than the race, longer than the race}; plus single-address and IP-literal fast paths. Oracle: reference racing order v6[0], v4[0], v6[1], v4[1], ... (resolver order kept inside a family): result Ok <=> some address accepts (and its attempt starts before the deadline); the connection on which the request arrives is at the FIRST acceptor of that order and no other acceptor sees a request; with k black-holes before it success takes at most k x 200 ms + 1.5 s (connect_timeout is 10 s); all refuse => ConnectionRefused; no acceptor and a black-hole => Err after about connect_timeout (1 s in those cases). Non-trivial: >= 2 addresses; distinct = hash(assignment, order, deadline class).",
+        rule: "Real loopback listeners behind a name mapped with the resolver hook H2. Per address one of: ACCEPT (listener that answers a small HTTP response and counts connections/requests), REFUSE (socket bound but not listening), BLACK-HOLE (listen backlog 0 + parked connection: further SYNs are dropped; verified with a probe connect before each use). Address lists with 0..3 entries per family ([::1]:p_i and 127.0.0.1:p_i), both family orders in the resolver output, EVERY assignment of {accept, refuse, black-hole} (<= 3^6 per shape; 3 198 assignments in thorough, a stride in quick) x deadline class {none, already expired, shorter than the race, longer than the race}; plus single-address and IP-literal fast paths. Oracle: reference racing order v6[0], v4[0], v6[1], v4[1], ... (resolver order kept inside a family): result Ok <=> some address accepts (and its attempt starts before the deadline); the connection on which the request arrives is at the FIRST acceptor of that order and no other acceptor sees a request; with k black-holes before it success takes at most k x 200 ms + 450 ms (connect_timeout is 10 s; a timing verdict must reproduce three times); all refuse => ConnectionRefused; no acceptor and a black-hole => Err after about connect_timeout (1 s in those cases). Non-trivial: >= 2 addresses; distinct = hash(assignment, order, deadline class).",
         assumptions: &["Linux loopback semantics (accept-queue overflow drops SYNs); IPv6 loopback available (otherwise the v6 cases are inconclusive)", "timing classes are 200 ms apart; a case on an overloaded machine is retried"],
         min_nontrivial: |t| t.pick(40, 2_000),
         gens,
@@ -379,7 +379,8 @@ fn run_case(behs6: &[Beh], behs4: &[Beh], v4_first: bool, deadline: Deadline, co
             }
         }
         // timing: k black-holes cost about one race interval each, not a connect timeout
-        if out.violation.is_none() && elapsed > Duration::from_millis(race_ms + 1500) {
+        // (success within k x 200 ms + 450 ms; a timing verdict must reproduce three times in a row)
+        if out.violation.is_none() && elapsed > Duration::from_millis(race_ms + 450) {
             out.violation = Some(("timing:unresponsive-address-delays-by-more-than-a-race-interval".into(), format!("success took {elapsed:?} with {k} black-holes before the winner; {descr}")));
         }
     }
@@ -392,6 +393,9 @@ fn run_case(behs6: &[Beh], behs4: &[Beh], v4_first: bool, deadline: Deadline, co
         // and a pending (black-holed) attempt must be waited for up to its own limit
         if first_acceptor.is_none() && !order.is_empty() && !(err_text.contains("ConnectionRefused") || err_text.contains("TimedOut") || err_text.contains("timed out")) {
             out.violation = Some(("error-not-from-an-attempt".into(), format!("no address accepts, but the error is none of the attempts' errors: {err_text}; {descr}")));
+        }
+        if out.violation.is_none() && !single && deadline == Deadline::Expired && !(err_text.contains("TimedOut") || err_text.contains("timed out")) {
+            out.violation = Some(("error-not-from-an-attempt".into(), format!("the deadline had expired before the race: every attempt reports a timeout, but the error is {err_text}; {descr}")));
         }
         let only_blackholes = !order.is_empty() && order.iter().all(|&x| beh_of(x) == Beh::BlackHole);
         if out.violation.is_none() && only_blackholes && !single && deadline == Deadline::None && elapsed < Duration::from_millis(connect_timeout_ms.saturating_sub(150)) {
